@@ -8,6 +8,7 @@ python3 translate/gen.py --repo /repo || true
 cp -n /repo/Cargo.lock harness/Cargo.lock 2>/dev/null || true
 (cd harness && CARGO_TARGET_DIR=/verif/.target/default cargo build --offline --bin edges --bin seq --bin store)
 (cd harness && CARGO_TARGET_DIR=/verif/.target/persist cargo build --offline --features persistence --bin edges)
+(cd harness && CARGO_TARGET_DIR=/verif/.target/persist cargo build --offline --features persistence --bin persist)
 (cd harness && CARGO_TARGET_DIR=/verif/.target/threads cargo build --offline --bin conc)
 (cd harness && CARGO_TARGET_DIR=/verif/.target/shuttle cargo build --offline --features shuttle --bin conc)
 echo setup done
